@@ -73,6 +73,17 @@ class H(http.server.BaseHTTPRequestHandler):
             self.send_error(404); return
         if meta["status"] != 200:
             self.send_error(meta["status"]); return
+        if meta.get("broken"):
+            # a chunked body whose second chunk header is garbage: the client's read raises
+            self.protocol_version = "HTTP/1.1"
+            self.send_response(200)
+            self.send_header("Transfer-Encoding", "chunked")
+            if meta["etag"]: self.send_header("ETag", meta["etag"])
+            self.send_header("Connection", "close")
+            self.end_headers()
+            self.wfile.write(b"5\r\nhello\r\nZZZ\r\nxx"); self.wfile.flush()
+            self.close_connection = True
+            return
         inm = self.headers.get("If-None-Match"); ims = self.headers.get("If-Modified-Since")
         if (meta["inm"] and meta["etag"] and inm == meta["etag"]) or \
            (meta["ims"] and meta["modified"] and ims == meta["modified"]):
@@ -169,7 +180,7 @@ DATES = ["Mon, 01 Jan 2024 00:00:00 GMT", "Tue, 02 Jan 2024 10:00:00 GMT"]
 
 def gen_case(rng, forced_kind=None):
     kind = forced_kind or rng.choice(
-        ["good"] * 8 + ["http-error", "truncated", "corrupt", "garbage", "unchanged-304", "unchanged-304-ims",
+        ["good"] * 8 + ["http-error", "truncated", "broken-transfer", "corrupt", "garbage", "unchanged-304", "unchanged-304-ims",
                         "unchanged-manual", "ignored-by-force", "initial", "stale-staging", "window-state",
                         "base-is-file", "staging-is-file", "big"])
     c = {"kind": kind, "force": False, "ext": rng.choice(["gz", "gz", "bz2", "xz"]),
@@ -193,6 +204,8 @@ def gen_case(rng, forced_kind=None):
         sv["status"] = rng.choice([404, 500])
     elif kind == "truncated":
         sv["body"] = "truncated"
+    elif kind == "broken-transfer":
+        sv["body"] = "broken"
     elif kind == "corrupt":
         sv["body"] = "corrupt"
     elif kind == "garbage":
@@ -241,6 +254,8 @@ def gen_case(rng, forced_kind=None):
     sv2 = {"status": 200, "inm": rng.random() < 0.5, "ims": False,
            "etag": sv["etag"] if rng.random() < 0.4 else rng.choice([None, '"m1"']),
            "modified": None, "declared": None, "members": gen_members(rng, 77), "body": "tar"}
+    if rng.random() < 0.25:
+        sv2["status"] = 404            # a follow-up that cannot fetch: the previous tree must be back in place
     c["srv2"] = sv2
     c["force2"] = rng.random() < 0.25
     c["ext2"] = "gz"
@@ -287,11 +302,12 @@ def build_root(root, state):
 
 def tree_from_snapshot(snap, prefix):
     """None | 'file' | {relpath: canonical node}"""
-    n = snap.get(prefix)
-    if n is None:
-        return None
-    if n[0] != "dir":
-        return "file"
+    if prefix:
+        n = snap.get(prefix)
+        if n is None:
+            return None
+        if n[0] != "dir":
+            return "file"
     t = {}
     k = len(prefix)
     for p, nd in snap.items():
@@ -357,6 +373,7 @@ def _child(root, url, force, crash_at, tar_crash, spool, chunk):
     os.umask(0o022)
     tempfile.tempdir = os.path.join(root, "tmp")
     sys.stdout = io.StringIO()
+    sys.stderr = io.StringIO()         # "Exception ignored in __del__" of a crashed destructor
     handlers = []
 
     def reg(f, *a, **k):
@@ -397,6 +414,13 @@ def _child(root, url, force, crash_at, tar_crash, spool, chunk):
             info["tar_tree"] = tree_from_snapshot(fsx.snapshot(dest), ())
 
     subprocess.run = run_wrapper
+    # tempfile binds os.unlink as a default argument at import time: route it through the traced os.unlink
+    _orig_cleanup = tempfile._TemporaryFileCloser.cleanup
+
+    def _cleanup(self, windows=False, unlink=None):
+        return _orig_cleanup(self, windows, os.unlink)
+
+    tempfile._TemporaryFileCloser.cleanup = _cleanup
     keep = {}
 
     def fn():
@@ -599,6 +623,7 @@ def publish(spool, ident, sv, ext):
         f.write(body)
     meta = {k: sv[k] for k in ("status", "inm", "ims", "etag", "modified")}
     meta["declared"] = declared
+    meta["broken"] = sv["body"] == "broken"
     with open(os.path.join(spool, ident + ".json"), "w") as f:
         json.dump(meta, f)
 
@@ -649,6 +674,8 @@ def run_case_real(chk, case, idx, port, spool, root, max_points):
         rest = [c for c in cand if c not in must]
         cand = must + rng.sample(rest, max(0, max_points - len(must)))
         cand.sort(key=lambda c: (c[2], c[3], c[0] if c[0] is not None else -1, c[1] or 0))
+    followed = set()
+    all_followups = chk.thorough
     for ci, tj, k, mid in cand:
         build_root(root, s0)
         r1 = run_sync(root, url1, case["force"], spool, case["chunk"], crash_at=ci, tar_crash=tj)
@@ -657,15 +684,23 @@ def run_case_real(chk, case, idx, port, spool, root, max_points):
             continue
         T1 = temp_name(r1["trace"])
         st1, fr1 = observe(root, T1, sizes)
-        r2 = run_sync(root, url2, case["force2"], spool, case["chunk"])
-        tags2, _, T2, sizes2, unk2 = abstract(r2["trace"], r2["info"]["tar_ran"])
-        st2, fr2 = observe(root, T2, sizes2)
-        if not (fr1 and fr2):
+        pt = {"k": k, "mid": mid, "st": st1, "at": (ci, tj), "f": False, "out2": 0, "detail2": None, "st2": st1,
+              "tar2_tree": None, "tar2_ok": None,
+              "call": repr(ref["trace"][ci][:2]) if ci is not None else f"tar after {tj} members"}
+        key = repr((st1["base"], st1["upd"], st1["old"]))
+        if all_followups or key not in followed:
+            followed.add(key)
+            r2 = run_sync(root, url2, case["force2"], spool, case["chunk"])
+            tags2, _, T2, sizes2, unk2 = abstract(r2["trace"], r2["info"]["tar_ran"])
+            st2, fr2 = observe(root, T2, sizes2)
+            fr1 = fr1 and fr2
+            pt.update({"f": True, "out2": r2["code"], "detail2": r2["detail"], "st2": st2,
+                       "tar2_tree": r2["info"]["tar_tree"], "tar2_ok": r2["info"]["tar_ok"]})
+            if unk2:
+                out["unknown"].extend(unk2)
+        if not fr1:
             out["frame_bad"].append(f"point k={k}")
-        out["points"].append({"k": k, "mid": mid, "st": st1, "out2": r2["code"], "detail2": r2["detail"],
-                              "st2": st2, "tags2": tags2, "sizes2": sizes2, "tar2_tree": r2["info"]["tar_tree"],
-                              "tar2_ok": r2["info"]["tar_ok"], "at": (ci, tj), "unknown2": unk2,
-                              "call": repr(ref["trace"][ci][:2]) if ci is not None else f"tar after {tj} members"})
+        out["points"].append(pt)
     return out
 
 
@@ -701,9 +736,14 @@ def point_code(res, pt, tar2_default):
         return 2
     if not (holds_old(case, st) or (res["tar_ok"] and holds_new(res["tar_tree"], st))):
         return 1
+    if not pt["f"]:
+        return 0
+    st2 = pt["st2"]
+    if case["srv2"]["status"] != 200:
+        ok = st2["base"] == logical(st) and st2["upd"] is None and st2["old"] is None
+        return 0 if ok else 4
     if pt["out2"] != 0:
         return 3
-    st2 = pt["st2"]
     t2 = pt["tar2_tree"] if pt["tar2_tree"] is not None else tar2_default
     if not ((holds_new(t2, st2) or st2["base"] == logical(st)) and st2["upd"] is None and st2["old"] is None):
         return 4
@@ -735,6 +775,31 @@ def short_case(case):
             "members": [(m[0], m[1]) for m in sv["members"]]}
 
 
+def render_case(res, pts, it):
+    case = res["case"]
+    sv = case["srv"]
+    complete = sv["body"] != "broken"          # a short body is NOT noticed by resp.read(amt); a broken transfer is
+    tar_tree = res["tar_tree"] if res["tar_tree"] is not None else {}
+    tar_ok = bool(res["tar_ok"])
+    tar2_default = members_tree(case["srv2"]["members"])
+    # the follow-up's temp file is gone when it ends: one block id stands for its download
+    chunks2 = [1]
+    body1, _ = body_of(sv, case["ext"])
+    chunks1 = chunk_ids(body1[:sum(res["sizes"])], res["sizes"]) if res["sizes"] else []
+    s0term = it.st({"base": case["base"], "upd": case["upd"], "old": case["old"], "tf": None, "dl": None})
+    body = (f"mkcase {cbool(not LEGACY)} {cbool(case['force'])} {c_srv(sv, chunks1, complete)} "
+            f"({it.tree(tar_tree)}, {cbool(tar_ok)}) {cnat(case['chunk'])} {s0term} "
+            f"{cbool(case['force2'])} {c_srv(case['srv2'], chunks2, True)} ({it.tree(tar2_default)}, true) "
+            f"{cN(res['ref']['code'])} {clist([cN(t) for t in res['tags']], 'N')} {it.st(res['final'])} "
+            f"{clist(pts, 'cpoint')}")
+    return "(" + "\n".join(it.defs) + "\n" + body + ")"
+
+
+def render_point(pt, it):
+    return (f"(mkcp {cnat(pt['k'])} {cbool(pt['mid'])} {it.st(pt['st'])} {cbool(pt['f'])} "
+            f"{cN(pt['out2'])} {it.st(pt['st2'])})")
+
+
 # ------------------------------------------------------------------------------ main
 def start_server(spool):
     proc = subprocess.Popen([sys.executable, "-c", SERVER_CODE, spool], stdout=subprocess.PIPE, text=True)
@@ -759,8 +824,8 @@ def main(chk: Check):
              "durable; directory trees are values of the model state (kernel rename/mkdir semantics trusted)")
     import pkgcore.sync.tar  # noqa: F401  (imported before forking)
 
-    ncases = int(os.environ.get("VERIF_C47_CASES", 0)) or chk.n(14, 90)
-    max_points = chk.n(22, 60)
+    ncases = int(os.environ.get("VERIF_C47_CASES", 0)) or chk.n(10, 80)
+    max_points = chk.n(18, 60)
     work = str(chk.scratch / "c47")
     os.makedirs(work)
     spool = os.path.join(work, "spool")
@@ -769,7 +834,8 @@ def main(chk: Check):
     proc, port = start_server(spool)
     results = []
     try:
-        kinds = ["good", "good", "unchanged-304", "truncated", "corrupt", "stale-staging", "window-state", "initial"]
+        kinds = ["good", "stale-staging", "window-state", "corrupt", "initial", "broken-transfer", "unchanged-304",
+                 "truncated"]
         for i in range(ncases):
             case = gen_case(chk.rng, kinds[i] if i < len(kinds) else None)
             results.append(run_case_real(chk, case, i, port, spool, root, max_points))
@@ -789,7 +855,7 @@ def main(chk: Check):
         hist[case["kind"]] = hist.get(case["kind"], 0) + 1
         it = Interner()
         sv = case["srv"]
-        complete = sv["body"] != "truncated"
+        complete = sv["body"] != "broken"          # a short body is NOT noticed by resp.read(amt); a broken transfer is
         tar_tree = res["tar_tree"] if res["tar_tree"] is not None else {}
         tar_ok = bool(res["tar_ok"])
         tar2_default = members_tree(case["srv2"]["members"])
@@ -802,14 +868,12 @@ def main(chk: Check):
         if res["unknown"]:
             prop_bad.append(("unmodelled-call", {"case": short_case(case), "calls": repr(res["unknown"][:4])}))
         pts = []
-        sizes2 = None
         for pt in res["points"]:
             if "error" in pt:
                 prop_bad.append(("harness", {"case": short_case(case), "point": pt}))
                 continue
             npoints += 1
-            sizes2 = pt["sizes2"]
-            pts.append(f"(mkcp {cnat(pt['k'])} {cbool(pt['mid'])} {it.st(pt['st'])} {cN(pt['out2'])} {it.st(pt['st2'])})")
+            pts.append(render_point(pt, it))
             k = pt["k"]
             if any(t in (6, 7) for t in res["tags"][:k]) or pt["mid"]:
                 chk.nontrivial((i, k, pt["mid"], pt["at"]))
@@ -829,23 +893,7 @@ def main(chk: Check):
             prop_bad.append(({1: "neither-old-nor-new", 2: "failed-sync-touched-tree", 3: "next-sync-fails",
                               4: "next-sync-wrong-tree"}[code], ex))
         # the follow-up's written blocks: observed ids (same for every point that downloaded)
-        ch2 = None
-        for pt in res["points"]:
-            if "st2" in pt and 4 in pt.get("tags2", []):
-                # ids of the follow-up download come from its own temp file before the exit unlink: recompute
-                ch2 = pt["sizes2"]
-                break
-        body2, _ = body_of(case["srv2"], case["ext2"])
-        chunks2 = chunk_ids(body2, ch2 or [len(body2)]) if body2 else []
-        body1, _ = body_of(sv, case["ext"])
-        chunks1 = chunk_ids(body1[:sum(res["sizes"])], res["sizes"]) if res["sizes"] else []
-        s0term = it.st({"base": case["base"], "upd": case["upd"], "old": case["old"], "tf": None, "dl": None})
-        body = (f"mkcase {cbool(not LEGACY)} {cbool(case['force'])} {c_srv(sv, chunks1, complete)} "
-                f"({it.tree(tar_tree)}, {cbool(tar_ok)}) {cnat(case['chunk'])} {s0term} "
-                f"{cbool(case['force2'])} {c_srv(case['srv2'], chunks2, True)} ({it.tree(tar2_default)}, true) "
-                f"{cN(res['ref']['code'])} {clist([cN(t) for t in res['tags']], 'N')} {it.st(res['final'])} "
-                f"{clist(pts, 'cpoint')}")
-        term = "(" + "\n".join(it.defs) + "\n" + body + ")"
+        term = render_case(res, pts, it)
         rows.append((term, []))
         if i < 3:
             chk.sample({"case": short_case(case), "outcome": res["ref"]["code"], "detail": res["ref"]["detail"],
